@@ -28,7 +28,7 @@ def run(ctx):
                        "C driver compiled as C99 against the generated headers only; subject library as C++11",
                        "upstream testc programs are an additional fixed replay tier, not generated input"]
     configs = [None, {"debug": True}]
-    callcheck.run_engine(ctx, "c", configs, 24 if quick else 300, ["c++"])
+    callcheck.run_engine(ctx, "c", configs, 32 if quick else 800, ["c++"])
     names = upstream.target_lists()["c"]
     for name, res in zip(names, core.pool_map(_up_job, names)):
         ctx.case(label="upstream-testc")
